@@ -994,6 +994,42 @@ Definition skels_ok (k : skels) : bool :=
   dskel_ok CoJSON (sk_json k) && dskel_ok CoText (sk_text k) && dskel_ok CoYAML (sk_yaml k)
   && parse_skel_ok (sk_parse k) && small_ok k.
 
+(* ---- what the ties assume about the package genum/gen as the compiler sees it (all files matching the build
+   context, read by harness/cmd/xlate_genum_skel through harness/internal/srcset) *)
+Record srcfacts := {
+  sf_embeds : list string;            (* "<var> <- <file>" for every //go:embed of the package *)
+  sf_construct : string;              (* the expression the template value is built from (a .Funcs(…) would show here) *)
+  sf_template_users : list string;    (* functions that mention the template value *)
+  sf_vars : list string;              (* every package-level variable with the functions (init included) that write to it *)
+  sf_inits : list string;             (* files declaring an init function *)
+  sf_excluded : list string;          (* .go files of the directory rejected by build constraints *)
+  sf_template_files : list string;    (* template files lying in the directory *)
+  sf_template_methods : list string   (* methods of the package (Recv.Name) and template functions the template calls *)
+}.
+(* one template file, embedded into one variable nobody writes to, parsed without a function map, executed by
+   Write only; no init functions, no build-constrained files; NO package-level mutable state (no variable
+   besides the template, its text and the read-only table of reserved identifiers; none of them written to);
+   the template calls exactly the 14 GetParsable… methods (tied by Tie_GEnumTraits), ValueDeduplicatedSet,
+   LowerCaseName, ParsableValuesOf, TraitInstance.Value (generator layer: tied by the farm) and the builtins
+   gt / index / len *)
+Definition srcfacts_ok (f : srcfacts) : bool :=
+  list_eqb String.eqb (sf_embeds f) ["tmpl <- enumTemplate.gotmpl"]
+  && String.eqb (sf_construct f) "template.Must(template.New(""genum"").Parse(tmpl))"
+  && list_eqb String.eqb (sf_template_users f) ["Write"]
+  && list_eqb String.eqb (sf_vars f) ["enumTemplate written by []"; "reservedIdentifiers written by []"; "tmpl written by []"]
+  && list_eqb String.eqb (sf_inits f) [] && list_eqb String.eqb (sf_excluded f) []
+  && list_eqb String.eqb (sf_template_files f) ["enumTemplate.gotmpl"]
+  && list_eqb String.eqb (sf_template_methods f)
+       ["TraitDescs.GetParsableJSONUnmarshalable"; "TraitDescs.GetParsableTextUnmarshalable";
+        "TraitDescs.GetParsableUnderlyingFloat32ForJSON"; "TraitDescs.GetParsableUnderlyingFloat32ForYAML";
+        "TraitDescs.GetParsableUnderlyingFloat64ForJSON"; "TraitDescs.GetParsableUnderlyingFloat64ForYAML";
+        "TraitDescs.GetParsableUnderlyingInt64ForJSON"; "TraitDescs.GetParsableUnderlyingInt64ForYAML";
+        "TraitDescs.GetParsableUnderlyingStringForJSON"; "TraitDescs.GetParsableUnderlyingStringForText";
+        "TraitDescs.GetParsableUnderlyingStringForYAML"; "TraitDescs.GetParsableUnderlyingUint64ForJSON";
+        "TraitDescs.GetParsableUnderlyingUint64ForYAML"; "TraitDescs.GetParsableYAMLUnmarshalable";
+        "Value.LowerCaseName"; "TraitDescs.ParsableValuesOf"; "TraitInstance.Value"; "Values.ValueDeduplicatedSet";
+        "func:gt"; "func:index"; "func:len"].
+
 (* ---- the functions of the current template *)
 Definition try_all (t : tables) (inputs : list dyn) : option Z := try_with (sem_parse t) inputs.
 Definition json_attempts (t : tables) (v : jview) : list dyn := json_attempts_sk cur_skels t v.
